@@ -127,6 +127,9 @@ pub fn samples(_seed: u64) -> Vec<Sample> {
         objs.push((6, img(arr(vec![name("ASCIIHexDecode")]), b"000102030405060708090a0b0c0d0e0f101112131415161718191a1b1c1d1e1f202122232425262728292a2b2c2d2e2f>")));
         objs[2].1.set("Resources", crate::mkpdf::dict(vec![("XObject", crate::mkpdf::dict(vec![("A", rf(4)), ("B", rf(5)), ("C", rf(6))]))]));
         v.push(Sample { name: "images-filter-chains".into(), bytes: crate::mkpdf::simple_doc(&objs, 1, vec![]), password: vec![] });
+        // the same images in encrypted documents (decryption sits below both caches; the corpus' encrypted files have no images)
+        v.push(Sample { name: "images-filter-chains-rc4".into(), bytes: crate::encdoc::encrypted_doc(&objs, 1, false, b"", b"owner", false), password: vec![] });
+        v.push(Sample { name: "images-filter-chains-aes".into(), bytes: crate::encdoc::encrypted_doc(&objs, 1, true, b"user", b"owner", true), password: b"user".to_vec() });
     }
     v
 }
